@@ -43,7 +43,8 @@ def assume_model_queries(reg):
 
 
 def register_system_shapes(reg):
-    reg.shape('System', {'options': 'Ref[Options]', '_privacyClassCache': 'Map[Str,Enum[PrivacyClass]]'})
+    reg.shape('System', {'options': 'Ref[Options]', '_privacyClassCache': 'Map[Str,Enum[PrivacyClass]]',
+                         'allobjects': 'Map[Str,Ref[Documentable]]'})
     reg.shape('Options', {'privacy': 'Seq[Tuple[Enum[PrivacyClass],Str]]'})
 
 
@@ -114,3 +115,14 @@ def register_funcdef_shapes(reg):
     reg.shapes['Function'].fields.update({'signature': 'Opt[Obj[Sig]]', 'overloads': 'Seq[Ref[FunctionOverload]]',
                                           'annotations': 'Map[Str,RefN[expr]]'})
     reg.shapes['FunctionDefNode'].fields.update({'decorator_list': 'Obj[DecoList]'})
+
+
+def register_page_shapes(reg):
+    reg.shape('CommonPage', {'ob': 'Ref[Documentable]', '_order': 'Obj[CallableOrder]'})
+    reg.shape('PackagePage', {'ob': 'Ref[Module]'}, bases=('CommonPage',))
+    reg.shape('ObjContent', {'ob': 'Ref[Documentable]', '_order': 'Obj[CallableOrder]'})
+    reg.shape('TableRow', {'ob': 'Ref[Documentable]', 'child': 'Ref[Documentable]'})
+    reg.shape('ContentItem', {'child': 'Ref[Documentable]', 'documented_ob': 'Ref[Documentable]'})
+    reg.shape('FunctionChild', {'ob': 'Ref[Documentable]'})
+    reg.shape('AttributeChild', {'ob': 'Ref[Documentable]'})
+    reg.shape('TemplateWriter', {'dry_run': 'Bool', 'total_pages': 'Int', 'written_pages': 'Int', 'build_directory': 'Obj[Path]'})
